@@ -82,9 +82,18 @@ ldb_skipnode_init(ldb_skipnode_t *node, const uint8_t *key) {
   node->key = key;
 }
 
+#ifdef LCDB_VERIF
+/* Verification hook H4 (defined by the harness that sets -DLCDB_VERIF):
+   scheduling points at the lock-free publication / observation of nodes. */
+extern void lcdb_verif_point(const void *obj, int kind);
+#endif
+
 static ldb_skipnode_t *
 ldb_skipnode_next(ldb_skipnode_t *node, int n) {
   assert(n >= 0);
+#ifdef LCDB_VERIF
+  lcdb_verif_point(node, 3);
+#endif
 #ifdef LDB_HAVE_ATOMICS
   /* Use an 'acquire load' so that we observe a fully initialized
      version of the returned Node. */
@@ -97,6 +106,9 @@ ldb_skipnode_next(ldb_skipnode_t *node, int n) {
 static void
 ldb_skipnode_set(ldb_skipnode_t *node, int n, ldb_skipnode_t *x) {
   assert(n >= 0);
+#ifdef LCDB_VERIF
+  lcdb_verif_point(node, 2);
+#endif
 #ifdef LDB_HAVE_ATOMICS
   /* Use a 'release store' so that anybody who reads through this
      pointer observes a fully initialized version of the inserted node. */
